@@ -18,6 +18,7 @@ import math
 from sexp import Sym
 
 from props import _dfrows_util as U
+from props import _c37x as X
 
 U.warm()
 
@@ -497,6 +498,7 @@ def case_lenparts(ctx, inp):
 
 
 CASES = {"shape": case_shape, "reduce": case_reduce, "reduce2": case_reduce2, "api": case_api, "lenparts": case_lenparts}
+CASES.update(X.CASES)      # extension round: covcorr, stats (harness/props/_c37x.py)
 
 
 # ------------------------------------------------------------------------------------------------
@@ -602,6 +604,7 @@ def generate(ctx):
                            "selections": [rng.choice([rng.randint(0, 3), [rng.randint(0, 3), rng.randint(0, 3)]]) for _ in range(3)]}
     for _ in range(ctx.n(190, 4000)):
         yield "api", gen_api(rng)
+    yield from X.generate(ctx)      # appended last: the streams of the sections above are unchanged
 
 
 def search(ctx):
